@@ -813,6 +813,20 @@ def names_table(ctx):
         ok = bool(V.valid_sp_regex.match(key)) and not keyword.iskeyword(key) and key not in V.reserved_sp_names
         impl = ("1" if ok else "0") + ("1" if key in V.special_sps else "0")
         ctx.count("name " + enc(key), nontrivial=True, branch="name-" + impl)
+        # property oracle, independent of the library's regex: the documented rule ("valid Python 2 identifiers
+        # beginning with a capital letter" = ASCII letters, digits, underscore) against what add() really does
+        doc_ok = (len(key) > 0 and all(ord(c) < 128 and (c.isalnum() or c == "_") for c in key)
+                  and "A" <= key[0] <= "Z" and not keyword.iskeyword(key) and key not in V.reserved_sp_names)
+        vv = spa.Vocabulary(4, pointer_gen=np.random.RandomState(1))
+        try:
+            vv.add(key, np.array([1.0, 0, 0, 0]))
+            accepted = True
+        except Exception:  # noqa: any refusal
+            accepted = False
+        if accepted != doc_ok or (accepted and list(vv.keys()) != [key]) or (not accepted and len(vv) != 0):
+            ctx.fail({"name": key, "class": "name rule"}, f"add({key!r}) accepted={accepted}, keys={list(vv.keys())}",
+                     f"accepted={doc_ok} (documented rule: ASCII identifier beginning with a capital letter, not "
+                     f"reserved), vocabulary unchanged on refusal", where="name-rule")
 
         def cb(st, payload, key=key, impl=impl):
             if st != "ok" or payload != impl:
